@@ -440,11 +440,35 @@ fn client_directed(k: u64, seed: u64) -> Option<CCfg> {
             ];
             c.label = "C02-blocked-on-request-buffer";
         }
+        29 | 30 => {
+            // C05: an abandoned call whose cancellation cannot be written yet expires first; the
+            // deadline of the call behind it must still be enforced
+            c.ncalls = 0;
+            c.never_pct = 100;
+            c.abandon_pct = 0;
+            c.cap = 2;
+            c.max_in_flight = 4;
+            c.model = if k == 29 { Model::Coupled } else { Model::Independent };
+            c.isolated_strays = false;
+            c.script = vec![
+                Act::CloseFlush,
+                Act::StartCall(Dl::Ms(20)),
+                Act::StartCall(Dl::Ms(40)),
+                Act::RunIdle,
+                Act::Abandon(0, None),
+                Act::RunIdle,
+                Act::Advance(25),
+                Act::RunIdle,
+                Act::Advance(30),
+                Act::RunIdle,
+            ];
+            c.label = "C05-expiry-of-abandoned-call-then-next-deadline";
+        }
         _ => return None,
     }
     Some(c)
 }
-const N_CLIENT_DIRECTED: u64 = 29;
+const N_CLIENT_DIRECTED: u64 = 31;
 
 /// scenario `i` of property `prop`
 pub fn client_cfg(prop: &str, i: u64, base_seed: u64, thorough: bool) -> CCfg {
